@@ -218,10 +218,13 @@ func nearVal(r *vh.Rand, v TV) TV {
 		return TV{K: "dec", I: v.I + 1, Prec: v.Prec}
 	case "list":
 		l := append([]TV{}, v.L...)
-		if len(l) > 0 && r.Chance(1, 2) {
+		switch {
+		case len(l) > 0 && r.Chance(1, 3):
 			l[len(l)-1] = nearVal(r, l[len(l)-1])
-		} else {
-			l = append(l, TV{K: "int", I: 1})
+		case len(l) > 1 && r.Chance(1, 2):
+			l = l[:len(l)-1] // a proper prefix of the previous list
+		default:
+			l = append(l, TV{K: "int", I: 1}) // the previous list is a proper prefix
 		}
 		return TV{K: "list", L: l}
 	case "json":
@@ -352,6 +355,9 @@ func genStream(r *vh.Rand, schema []sleaf, o streamOpts, ts *int64) []*Noti {
 			if r.Chance(1, 6) {
 				p.Target = "ignored-target" // only valid on a prefix: must be ignored on a path
 			}
+			if len(p.Elem) > 0 && r.Chance(1, 8) {
+				p.Element = []string{"stale", "element"} // deprecated encoding next to elem: ignored
+			}
 			n.Updates = append(n.Updates, Upd{Path: p, Val: v})
 		}
 		if r.Intn(100) < o.delPct && len(cands) > 0 {
@@ -404,6 +410,36 @@ func genStream(r *vh.Rand, schema []sleaf, o streamOpts, ts *int64) []*Noti {
 		}
 		out = append(out, n)
 	}
+	// the last word on a few leaves is a value that differs minimally from the
+	// one before (a suppression that is too eager shows at quiescence)
+	keys := make([]string, 0, len(last))
+	for k := range last {
+		keys = append(keys, k)
+	}
+	sort.Strings(keys)
+	byKey := map[string]sleaf{}
+	for _, l := range schema {
+		byKey[l.key()] = l
+	}
+	var picks []string
+	for _, k := range keys { // every leaf that holds a list, then a few others
+		if last[k].K == "list" && len(picks) < 4 {
+			picks = append(picks, k)
+		}
+	}
+	for i := 0; i < 3 && len(keys) > 0; i++ {
+		picks = append(picks, keys[r.Intn(len(keys))])
+	}
+	for _, k := range picks {
+		l := byKey[k]
+		if o.pathOrigin || o.mixed || (l.origin != "" && l.origin != "openconfig") {
+			continue
+		}
+		*ts += int64(1 + r.Intn(50))
+		v := nearVal(r, last[k])
+		last[k] = v
+		out = append(out, &Noti{TS: *ts, Updates: []Upd{{Path: pathOf(l.elems, false), Val: v}}})
+	}
 	return out
 }
 
@@ -430,7 +466,7 @@ func interleave(r *vh.Rand, streams map[string][]*Noti, order []string, subAt in
 			continue
 		}
 		if streams[nm][idx[nm]] == breakMark {
-			ops = append(ops, Op{T: nm, Break: true})
+			ops = append(ops, Op{T: nm, Break: true, EOF: r.Chance(1, 2)})
 		} else {
 			ops = append(ops, Op{T: nm, N: streams[nm][idx[nm]]})
 		}
@@ -489,10 +525,35 @@ func genBurst(r *vh.Rand, thorough bool) *Case {
 	return c
 }
 
+// genLive: the target writes each of many leaves exactly once, one message
+// every 2 ms, while several clients subscribe one after the other: whatever
+// falls between a client's snapshot and its registration is missing for good.
+func genLive(r *vh.Rand, thorough bool) *Case {
+	c := &Case{Family: "live", Live: true, LiveDelayMS: 5 + r.Intn(30), LiveStaggerMS: 15 + r.Intn(25)}
+	c.Requests = []ReqCfg{{Name: "all", Prefix: &GPath{Origin: "openconfig"}, Paths: []GPath{{}}}}
+	c.Targets = []TargetCfg{{Name: "dev1", Request: "all"}}
+	ts := int64(1000)
+	c.Ops = append(c.Ops, Op{T: "dev1", N: &Noti{TS: ts, Updates: []Upd{{Path: GPath{Elem: []PElem{{Name: "live"}, {Name: "first"}}}, Val: TV{K: "int", I: 0}}}}})
+	c.Ops = append(c.Ops, Op{Subscribe: true})
+	n := 140 + r.Intn(40)
+	for i := 0; i < n; i++ {
+		ts += 7
+		c.Ops = append(c.Ops, Op{T: "dev1", N: &Noti{TS: ts, Updates: []Upd{{Path: GPath{Elem: []PElem{{Name: "live"}, {Name: fmt.Sprintf("l%03d", i)}}}, Val: TV{K: "int", I: int64(i)}}}}})
+	}
+	for i := 0; i < 5; i++ {
+		c.Clients = append(c.Clients, ClientSpec{Prefix: GPath{Target: "dev1"}})
+	}
+	c.Cli = []CliSpec{{Target: "dev1", Query: []string{}}}
+	return c
+}
+
 // genScenario draws one scenario of the given family.
 func genScenario(r *vh.Rand, family string, thorough bool) *Case {
 	if family == "burst" {
 		return genBurst(r, thorough)
+	}
+	if family == "live" {
+		return genLive(r, thorough)
 	}
 	c := &Case{Family: family}
 	ts := int64(1000 + r.Intn(1000))
